@@ -33,7 +33,8 @@ CLAIMS["C01"] = dict(
          "intersection corrected into its scanbeam stays on an edge (x recomputed at the clamped y); (6) whoever may modify the local-minima list "
          "invalidates its 'sorted' flag; (7) GetSegmentIntersectPt, in both precision build options, stores - as a real-number formula - the "
          "crossing point of the two lines, and TopX is the x of the line through bot and top at the given y, shortcuts included (identities of "
-         "polynomial normal forms, engine E14); (8) Intersect / Union / Difference / Xor / BooleanOp return what the sweep produced, never an input. "
+         "polynomial normal forms, engine E14); (8) Intersect / Union / Difference / Xor / BooleanOp return what the sweep produced, never an input; (9) GetClosestPointOnSegment (the "
+         "correction used for nearly horizontal edges) is the foot of the perpendicular. "
          "A wrong reachable cell is a wrong region for some input in general position; the "
          "converse (the behaviour of C01) is NOT decided.",
     note="Assumes the code's stated invariants for wind_cnt / wind_cnt2 and that AEL neighbours are the geometric neighbours. AEL ordering, "
@@ -48,7 +49,8 @@ CLAIMS["C11"] = dict(
          "of caller data (and the bounds it tests take every vertex into account), exact C-boundary rejection sets evaluated over the whole uint8_t / "
          "precision domain by interpreting the function prefix, NoClip early return, succeeded_ re-armed by every Execute, and (no-exceptions "
          "build) error codes consumed before a result is produced (no call site resolves to a function that ends with an unread, possibly set "
-         "local error code) and every DoError paired with an error-code update. Genuine defects found are "
+         "local error code; a valueless return on the error path has emptied every result-typed output parameter) and every DoError paired with an "
+         "error-code update. Genuine defects found are "
          "listed in known_findings.json (D8-D10) or repaired by fix: commits (D7, D13).",
     note="Does not decide that Execute returns true for all geometry (AddLocalMaxPoly mismatch reachability). Parameters are recognised by name "
          "(precision, decimal_prec, decimalPlaces) and int type.",
@@ -78,7 +80,7 @@ CLAIMS["C07"] = dict(
          "closing vertex only for the closed end types Polygon and Joined (for open ends it is the end point of the last segment); (v) every function of "
          "the offsetter computes the same x/y with and without USINGZ (sibling identity modulo Z erasure); (vi) the miter threshold derived from "
          "MiterLimit is re-derived by every Execute before a join reads it (the join factor bound is the one of the limit in force); (vii) the join "
-         "formulas (unit normal, sin/cos of the turn, miter, bevel, round start and rotation step, perpendicular offset) equal the textbook "
+         "formulas (unit normal, sin/cos of the turn, miter, bevel, the squaring line of the square join, round start and rotation step, perpendicular offset) equal the textbook "
          "formulas as polynomial normal forms (engine E14) and OffsetPoint dispatches every convex vertex to the construction of its JoinType, "
          "mitering exactly while the miter length is within the limit.",
     note="Stroke geometry, cap extents, circles for points are NOT decided. Stale normals passed to a delta callback (D12) are reported under C12.",
@@ -90,7 +92,8 @@ CLAIMS["C17"] = dict(
     text="Static agreement rules for the C export layer: (LAYOUT) the element-count shape c0 + SUM(c1 + DIM*N) of every writer, reader and sizing "
          "function of the CPaths / CPath / CPolyPath layouts is extracted from the AST and must agree, with EXPORT_VERTEX_DIMENSIONALITY 2 and 3; the "
          "stored count counts exactly the written records; the first element is the allocated length; (FORWARD) each of the 76 exported parameters "
-         "reaches the native parameter of its meaning, resolved by declaration (constructor slots judged by parameter name), none of another meaning, "
+         "reaches the native parameter of its meaning, resolved by declaration (constructor slots judged by parameter name; a list of paths goes to a "
+         "paths parameter, not path by path), none of another meaning, "
          "none dropped; (SCALE) dimensional analysis of the D exports; (Z-CODEC, USINGZ) every store of Z into a slot and every load from it is a "
          "bit copy (Reinterpret or same type) so that writers and readers agree; (UNCONDITIONAL) whether a geometry input is handed to the native object depends on that input only; (CURSOR) every call of a writer advances the caller's write position "
          "(cursor by reference, or returned position stored back). A layout mismatch is simultaneously a round-trip failure and an out-of-bounds access.",
@@ -114,7 +117,8 @@ CLAIMS["C05"] = dict(
          "open edge crosses a closed edge (prefix of IntersectEdges) are extracted by abstract interpretation over a verified-uniform partition and "
          "equal the definition on every reachable cell; AddPaths_ drops a trailing vertex equal to the first vertex of the same path only for closed "
          "paths; DoHorizontal keeps its end-of-segment tests active for a horizontal open end; BuildPath64 and BuildPathD treat open paths alike; the builders pass isOpen according to outrec->is_open and are "
-         "handed a real open-solution object by every caller (a null one would send open records down the closed branch).",
+         "handed a real open-solution object by every caller (a null one would send open records down the closed branch); an edge that stops "
+         "contributing clears its output record's pointer to itself (front_edge iff IsFront), at all three sites.",
     note="Positions of the cuts, lengths and independence of the closed solution are NOT decided.",
     technique="static analysis: abstract interpretation of decision code over finite partitions + sibling identity",
     design="§3 E3/E6, §4 C05", engine="E3")
@@ -160,7 +164,8 @@ CLAIMS["C15"] = dict(
          "must-follow analysis: every vertex created at a crossing in IntersectEdges reaches SetZ on all paths; DoSplitOp calls the callback before "
          "storing the point; SetZ's decision table (end point z first, subject before clip, else DefaultZ); ClipperD's proxy callback follows the user's "
          "SetZCallback at every Execute (CheckCallback table, called before ExecuteInternal); a point that is only given new x and y "
-         "(GetSegmentIntersectPt's out-parameter) is a local of the innermost enclosing loop, so it carries the default z.",
+         "(GetSegmentIntersectPt's out-parameter) is a local of the innermost enclosing loop, so it carries the default z; in the conversion layer (ScalePath(s), BuildPath64/D, PolyPath64/D, C "
+         "converters) a vertex made from one vertex's x and y has a z argument.",
     note="Sufficient-condition check: a one-sided behaviour-preserving rewrite of an #ifdef branch is reported. Trusted: callbacks write only pt.z. "
          "NOT decided: that the vertex a callback saw survives CleanCollinear.",
     technique="static analysis: AST alignment modulo named patterns + forward may-pending dataflow + interpreted decision table",
@@ -208,7 +213,8 @@ CLAIMS["C10"] = dict(
          "recursion of CheckSplitOwner); non-emptiness guards on every first/last-element access to input containers, "
          "interprocedurally from the public entries (found and, since the repair, proves the absence of the empty-path crash in ClipperOffset); "
          "operator new unreachable from every destructor / noexcept function, no catch handler, no nothrow-new (so bad_alloc reaches the caller); no "
-         "product in signed 64-bit arithmetic; output-iterator algorithms append or write to a destination constructed with the source's size(); sort comparators are strict weak orders; edges handed to AddOutPt & co. carry output (HOT.guard); no "
+         "product in signed 64-bit arithmetic; output-iterator algorithms append or write to a destination constructed with the source's size(); loops that count an unsigned index down "
+         "test it strictly; sort comparators are strict weak orders; edges handed to AddOutPt & co. carry output (HOT.guard); no "
          "pointer into RectClip's node store survives its reset; and, for the allocation-failure clause, every output-vertex ring is link-consistent "
          "at every statement that can throw and at every exit of the 14 functions that re-link rings (symbolic heap, all paths), and only "
          "provably orphaned vertices are deleted - which is what ~ClipperBase needs to free the rings after a std::bad_alloc.",
@@ -250,7 +256,7 @@ CLAIMS["C19"] = dict(
     category="other",
     text="The swept-region equality is geometric and NOT decided. Decided statically are structural necessary conditions of detail::Minkowski and "
          "its four wrappers: empty input returns empty before anything is indexed; sum adds / difference subtracts the pattern point; the path's "
-         "closing edge is swept iff isClosed and every other edge always (whether or not an operand's last vertex repeats its first); quad corners; every quad is made positively oriented before the NonZero union; wrappers pass the "
+         "closing edge is swept iff isClosed and every other edge always (whether or not an operand's last vertex repeats its first); quad corners; no continue jumps over the previous-cursor updates; every quad is made positively oriented before the NonZero union; wrappers pass the "
          "right flags; every call (recursion included) keeps pattern and path in their slots; PathD overloads scale in and out (dimensional analysis).",
     note="That the union of the parallelograms equals the swept region within 2 units is NOT decided.",
     technique="static analysis: AST rules and small interpreted tables",
